@@ -152,12 +152,13 @@ func (cr *caseRun) applyAll(sides []*side, o *op, afterReload bool) bool {
 	if o.K == "prune" {
 		before = len(sides[0].st.Changes())
 	}
-	var first []issued
+	var first, ids []issued
+	diverged := false
 	for k, s := range sides {
 		if trace {
 			fmt.Printf("TRACE case=%d side=%s op#%d %s\n", cr.idx, s.name, len(cr.ops), kit.JSON(o))
 		}
-		ids := apply(s, o, cr.clock)
+		ids = apply(s, o, cr.clock)
 		if k == 0 {
 			first = ids
 			continue
@@ -172,13 +173,16 @@ func (cr *caseRun) applyAll(sides []*side, o *op, afterReload bool) bool {
 				}
 			}
 			cr.violation("id-counter-differs:"+kind, map[string]interface{}{"live_issued": first, "reloaded_issued": ids})
-			return false
+			diverged = true
 		}
 	}
+	// what the lineage head (the reloaded state, when there is one) handed out
 	head := sides[len(sides)-1]
-	ids := first
 	cr.record(ids, afterReload)
 	cr.scanNotices(head.st, afterReload)
+	if diverged {
+		return false
+	}
 	cr.g.note(o, ids)
 	switch o.K {
 	case "add-warning", "warnf":
@@ -551,7 +555,7 @@ func runCase(c *kit.Check, stream string, idx int, withNull bool, anchor time.Ti
 			sig = append(sig, kit.JSON(o))
 		}
 		c.Nontrivial(kit.Sig(sig...))
-		if idx%nullBase < 2 && len(cr.ops) > 0 {
+		if len(cr.ops) > 0 { // the kit keeps the first few
 			n := len(cr.ops)
 			if n > 12 {
 				n = 12
